@@ -740,7 +740,10 @@ def ref_line(op, impl):
             # bytes from the independent escape; the capacity is the model's business, here only: it holds the result
             if impl is not None and impl.startswith("mem "):
                 t = impl.split(" ")
-                if len(t) == 3 and t[1].isdigit() and t[2] == want and int(t[1]) >= len(py_esc(b, w[1] == "1")):
+                esc = py_esc(b, w[1] == "1")
+                # capacity 0 with unchanged bytes: the result shares the storage of the argument (a String attached to
+                # foreign memory reports capacity 0), which is the caller's business (harmless C16-h5 returns `str` itself)
+                if len(t) == 3 and t[1].isdigit() and t[2] == want and (int(t[1]) >= len(esc) or (t[1] == "0" and esc == b)):
                     return impl
             return f"mem <capacity >= length> {want}"
         if w[0] == "unesc" and len(w) == 2:
